@@ -49,6 +49,8 @@ ASSUMPTIONS = [
     "attribute values are generated without tab / CR / LF (XML attribute-value normalisation would turn them into spaces) and without `<`, `&`, `\"`; element texts without `<`, `&`",
     "algorithm numbers are drawn from those the data classes can represent (5, 8, 10 with an RSA child; 13, 14 with an ECDSA child)",
     "python `set` fields are compared as sorted lists; duplicate keys / signatures within a bundle are not generated",
+    "end tags are written exactly as `</name>`: white space inside an END tag (`</Request >`, XML-legal) is outside the property's plain form (it speaks of start tags) — the reader rejects it with ValueError, which C13's syntax dictionary covers as an accept-or-reject case",
+    "bundle ids are pairwise distinct within a document (the schema does not say so, validation demands it): with equal (expiration, inception, id) two bundles may still come out in document order (KskmProofs.C12 C12_order_key_tie)",
 ]
 TRUSTED = ["xml.etree.ElementTree as the standard XML parser", "harness/xmlgen.py (generator) — cross-checked against et_extract on every document"]
 
@@ -57,8 +59,8 @@ FEATURE_KEY = {
     "one-response-bundle": "one-response-bundle",
     "timestamp": "timestamp-on-request",
     "equal-expiration": "equal-expiration-order",
+    "equal-times": "equal-expiration-order",
     "space-in-attrless-start-tag": "space-in-attrless-start-tag",
-    "space-in-end-tag": "space-in-end-tag",
     "gt-in-attribute-value": "gt-in-attribute-value",
     "response-bundle-permutation": "response-bundle-order",
 }
@@ -258,6 +260,9 @@ def features_of(doc: dict[str, Any]) -> set[str]:
     exps = [b["expiration"] for b in doc["bundles"]]
     if len(set(exps)) != len(exps):
         f.add("equal-expiration")
+    if len({(b["expiration"], b["inception"]) for b in doc["bundles"]}) != len(exps):
+        f.discard("equal-expiration")
+        f.add("equal-times")
     return f
 
 
@@ -278,7 +283,7 @@ def run(tier: str, driver_ok: bool) -> Result:
         return len(cases) - 1
 
     # 1. random documents x random layouts
-    for i in range(2300 if quick else 30000):
+    for i in range(3600 if quick else 30000):
         kind = "request" if i % 5 < 3 else "response"
         doc = xmlgen.gen_doc(r, kind, rich_ids=(i % 7 == 0), small=(i % 3 != 0))
         tree = xmlgen.to_tree(doc, r)
@@ -319,13 +324,13 @@ def run(tier: str, driver_ok: bool) -> Result:
         doc = xmlgen.gen_doc(r, kind, feature="timestamp", small=True)
         add("feature", doc, xmlgen.render(xmlgen.to_tree(doc, r), xmlgen.Layout(r)), feature="timestamp")
         # equal expirations: the same document with the two tied bundles in either order
-        doc = xmlgen.gen_doc(r, "request", nbundles=2 + i % 3, feature="equal-expiration", small=True)
+        doc = xmlgen.gen_doc(r, "request" if i % 4 else "response", nbundles=2 + i % 3, feature="equal-expiration" if i % 2 else "equal-times", small=True, rich_ids=(i % 3 == 0))
         tree = xmlgen.to_tree(doc, r)
         seed = r.getrandbits(32)
         base = add("feature", doc, xmlgen.render(tree, xmlgen.Layout(random.Random(seed), permute_attrs=False)), feature="equal-expiration")
         t2 = tree.copy()
         inner = t2.children[0]
-        idx = [j for j, c in enumerate(inner.children) if c.name == "RequestBundle"]
+        idx = [j for j, c in enumerate(inner.children) if c.name in ("RequestBundle", "ResponseBundle")]
         inner.children[idx[0]], inner.children[idx[1]] = inner.children[idx[1]], inner.children[idx[0]]
         add("feature", doc, xmlgen.render(t2, xmlgen.Layout(random.Random(seed), permute_attrs=False)), feature="equal-expiration", base=base, label="tied-bundles-swapped")
         if i < nf // 2:
@@ -333,7 +338,6 @@ def run(tier: str, driver_ok: bool) -> Result:
             doc = xmlgen.gen_doc(r, kind, small=True)
             tree = xmlgen.to_tree(doc, r)
             add("feature", doc, xmlgen.render(tree, xmlgen.Layout(r, space_in_attrless_start_tag=0.15)), feature="space-in-attrless-start-tag")
-            add("feature", doc, xmlgen.render(tree, xmlgen.Layout(r, space_in_end_tag=0.1)), feature="space-in-end-tag")
             doc = xmlgen.gen_doc(r, kind, small=True)
             which = r.choice(["id", "bundle", "key"])
             if which == "id":
@@ -351,15 +355,47 @@ def run(tier: str, driver_ok: bool) -> Result:
                             s["keyIdentifier"] = ">" + old
             add("feature", doc, xmlgen.render(xmlgen.to_tree(doc, r), xmlgen.Layout(r)), feature="gt-in-attribute-value")
 
+    # 0. corpus: minimised documents of the recorded findings (and their baseline), judged like the rest
+    corpus: list[dict[str, Any]] = []
+    for f in sorted((lib.VERIF / "corpus").glob("C12_*.json")):
+        corpus += json.loads(f.read_text())
+
     # --- the three readings
     op = {"request": "request_from_xml", "response": "response_from_xml"}
     model = drive([{"op": op[c["kind"]], "s": hx(c["text"])} for c in cases]) if driver_ok else [None] * len(cases)
     tasks = []
     for c, m in zip(cases, model):
         tasks.append(({"kind": op[c["kind"]], "text": c["text"]}, HANG_CONFIRM_BUDGET * 2 if m == "hang" else BUDGET))
+    ctasks = []
+    for e in corpus:
+        ctasks.append(({"kind": e["kind"], "text": e["text"]}, BUDGET))
+        if e.get("permuted"):
+            ctasks.append(({"kind": e["kind"], "text": e["permuted"]}, BUDGET))
     with WatchdogPool(min(16, os.cpu_count() or 4)) as pool:
+        couts = pool.run(ctasks)
         outs = pool.run(tasks)
         res.stats["worker_restarts"] = pool.restarts
+    # corpus verdicts
+    ci = 0
+    for e in corpus:
+        o = couts[ci]
+        ci += 1
+        impl = o.get("outcome") if not (o.get("timeout") or o.get("died")) else {"hang": True}
+        case = {"stream": "corpus", "kind": e["kind"], "feature": e["key"], "label": "", "text": e["text"]}
+        res.count(e["text"])
+        res.bump("stream:corpus")
+        try:
+            std = {"ok": et_extract(e["text"])}
+        except (SchemaError, ET.ParseError) as exc:
+            std = {"error": f"{type(exc).__name__}: {exc}"}
+        if not (isinstance(impl, dict) and "ok" in impl) or unordered(impl["ok"]) != unordered(std.get("ok")):
+            res.violation(WHAT, case, key=e["key"], impl=_short(impl), expected=_short(std))
+        if e.get("permuted"):
+            o2 = couts[ci]
+            ci += 1
+            impl2 = o2.get("outcome")
+            if impl2 != impl:
+                res.violation(WHAT, dict(case, text=e["permuted"], label="siblings permuted"), key=e["key"], impl=_short(impl2), impl_on_unpermuted=_short(impl), note="result depends on the document order of siblings", unpermuted_text=e["text"])
     impls: list[Any] = []
     for c, o, m in zip(cases, outs, model):
         impl = o.get("outcome") if not (o.get("timeout") or o.get("died")) else {"hang": True}
@@ -368,9 +404,13 @@ def run(tier: str, driver_ok: bool) -> Result:
     for i, (c, impl, m) in enumerate(zip(cases, impls, model)):
         doc = c["doc"]
         feats = features_of(doc)
-        if c["feature"] in ("space-in-attrless-start-tag", "space-in-end-tag", "gt-in-attribute-value", "response-bundle-permutation"):
+        if c["feature"] in ("space-in-attrless-start-tag", "gt-in-attribute-value", "response-bundle-permutation"):
             feats.add(c["feature"])
-        key = "+".join(sorted(FEATURE_KEY[f] for f in feats)) if feats else f"none:{c['stream']}"
+        # attribution: a shape that is a recorded finding names the key on its own; the repaired shapes
+        # (one signer, one response bundle, tied bundles, permuted response bundles) only when no such is present
+        open_feats = feats & {"timestamp", "space-in-attrless-start-tag", "gt-in-attribute-value"}
+        named = open_feats or feats
+        key = "+".join(sorted(FEATURE_KEY[f] for f in named)) if named else f"none:{c['stream']}"
         if "timestamp" in feats and doc["kind"] == "response":
             key = key.replace("timestamp-on-request", "timestamp-on-response")
         case = {"stream": c["stream"], "kind": op[c["kind"]], "feature": c["feature"], "label": c["label"], "text": c["text"]}
@@ -406,10 +446,9 @@ def run(tier: str, driver_ok: bool) -> Result:
         else:
             res.bump("impl:agrees")
             # chronological ordering of request bundles (the fourth mechanism of the property's anchors)
-            if doc["kind"] == "request":
-                ex = [b["expiration"] for b in impl["ok"]["bundles"]]
-                if ex != sorted(ex):
-                    res.violation(WHAT, case, key="request-bundles-not-chronological", impl=ex)
+            ex = [b["expiration"] for b in impl["ok"]["bundles"]]
+            if doc["kind"] == "request" and ex != sorted(ex):
+                res.violation(WHAT, case, key="request-bundles-not-chronological", impl=ex)
         # 2. order independence: the same data with siblings permuted must give the same result
         if c["base"] is not None and not differs:
             b_impl = impls[c["base"]]
